@@ -1,9 +1,16 @@
 //! Shared instrumentation for the correspondence harness: instrumented key / value types,
 //! hashers, a deterministic PRNG, thread-local call counters and an "armed panic" facility.
 
-pub mod trace;
+#[macro_use]
+mod trace_macro;
+// the trace machinery, instantiated for several key / value / hasher types (needs_drop, the default hasher and the
+// hasher-less constructors are type-level facts a single instantiation cannot vary)
+trace_mod!(trace, VKey, VVal, LruCache<VKey, VVal, BH>, |max: usize, cap: usize, hk: u8| LruCache::with_capacity_and_hasher(max, cap, BH(hk)), "dd");
+trace_mod!(trace_pd, PKey, VVal, LruCache<PKey, VVal, BH>, |max: usize, cap: usize, hk: u8| LruCache::with_capacity_and_hasher(max, cap, BH(hk)), "pd");
+trace_mod!(trace_dp, VKey, PVal, LruCache<VKey, PVal, BH>, |max: usize, cap: usize, hk: u8| LruCache::with_capacity_and_hasher(max, cap, BH(hk)), "dp");
+trace_mod!(trace_df, VKey, VVal, LruCache<VKey, VVal>, |max: usize, cap: usize, _hk: u8| if cap == 0 { LruCache::new(max) } else { LruCache::with_capacity(max, cap) }, "df");
 
-use lru_mem::HeapSize;
+use lru_mem::{HeapSize, LruCache};
 use std::borrow::Borrow;
 use std::cell::{Cell, RefCell};
 use std::hash::{BuildHasher, Hash, Hasher};
@@ -62,7 +69,8 @@ pub fn reset_counters() {
 
 pub fn take_drops() -> Vec<u64> { DROPS.with(|d| std::mem::take(&mut *d.borrow_mut())) }
 pub fn take_clone_log() -> Vec<(u64, u64)> { CLONE_LOG.with(|d| std::mem::take(&mut *d.borrow_mut())) }
-fn fresh_clone_tok() -> u64 { NEXT_CLONE_TOK.with(|c| { let v = c.get(); c.set(v + 1); v }) }
+/// tokens of key objects are odd, tokens of value objects even (the model side tells them apart by that)
+fn fresh_clone_tok(is_key: bool) -> u64 { NEXT_CLONE_TOK.with(|c| { let v = c.get() & !1; c.set(v + 2); if is_key { v | 1 } else { v } }) }
 
 /// The borrowed form through which lookups go (a different type than the key).
 #[derive(Debug)]
@@ -113,7 +121,7 @@ impl Clone for VKey {
     fn clone(&self) -> VKey {
         CLONES.with(|h| h.set(h.get() + 1));
         callback(CB_CLONE);
-        let t = fresh_clone_tok();
+        let t = fresh_clone_tok(true);
         CLONE_LOG.with(|d| d.borrow_mut().push((self.tok, t)));
         VKey { id: KeyId(self.id.0), tok: t, heap: self.heap }
     }
@@ -134,9 +142,58 @@ impl Clone for VVal {
     fn clone(&self) -> VVal {
         CLONES.with(|h| h.set(h.get() + 1));
         callback(CB_CLONE);
-        let t = fresh_clone_tok();
+        let t = fresh_clone_tok(false);
         CLONE_LOG.with(|d| d.borrow_mut().push((self.tok, t)));
         VVal { tok: t, tag: self.tag, heap: self.heap }
+    }
+}
+
+/// The same key type without a Drop impl (needs_drop::<PKey>() is false). `tok == 0` marks a probe object whose drop is not reported.
+pub struct PKey { pub id: KeyId, pub tok: u64, pub heap: usize }
+
+impl PKey {
+    pub fn new(id: u32, tok: u64, heap: usize) -> PKey { PKey { id: KeyId(id), tok, heap } }
+    pub fn probe(id: u32) -> PKey { PKey { id: KeyId(id), tok: 0, heap: 0 } }
+}
+impl std::fmt::Debug for PKey {
+    fn fmt(&self, f: &mut std::fmt::Formatter<'_>) -> std::fmt::Result { write!(f, "K{}", self.id.0) }
+}
+impl PartialEq for PKey {
+    fn eq(&self, o: &PKey) -> bool { self.id == o.id }
+}
+impl Eq for PKey {}
+impl Hash for PKey {
+    fn hash<H: Hasher>(&self, s: &mut H) { self.id.hash(s) }
+}
+impl Borrow<KeyId> for PKey { fn borrow(&self) -> &KeyId { &self.id } }
+impl HeapSize for PKey {
+    fn heap_size(&self) -> usize { SIZES.with(|h| h.set(h.get() + 1)); callback(CB_SIZE); self.heap }
+}
+impl Clone for PKey {
+    fn clone(&self) -> PKey {
+        CLONES.with(|h| h.set(h.get() + 1));
+        callback(CB_CLONE);
+        let t = fresh_clone_tok(true);
+        CLONE_LOG.with(|d| d.borrow_mut().push((self.tok, t)));
+        PKey { id: KeyId(self.id.0), tok: t, heap: self.heap }
+    }
+}
+
+/// The same value type without a Drop impl.
+pub struct PVal { pub tok: u64, pub tag: u64, pub heap: usize }
+impl std::fmt::Debug for PVal {
+    fn fmt(&self, f: &mut std::fmt::Formatter<'_>) -> std::fmt::Result { write!(f, "V{}", self.tag) }
+}
+impl HeapSize for PVal {
+    fn heap_size(&self) -> usize { SIZES.with(|h| h.set(h.get() + 1)); callback(CB_SIZE); self.heap }
+}
+impl Clone for PVal {
+    fn clone(&self) -> PVal {
+        CLONES.with(|h| h.set(h.get() + 1));
+        callback(CB_CLONE);
+        let t = fresh_clone_tok(false);
+        CLONE_LOG.with(|d| d.borrow_mut().push((self.tok, t)));
+        PVal { tok: t, tag: self.tag, heap: self.heap }
     }
 }
 
